@@ -8,9 +8,9 @@ import (
 	"k8s.io/apimachinery/pkg/runtime"
 	"k8s.io/apimachinery/pkg/runtime/schema"
 	"k8s.io/apimachinery/pkg/util/managedfields"
+	"k8s.io/apimachinery/pkg/util/yaml"
 	"sigs.k8s.io/structured-merge-diff/v4/typed"
 	"sigs.k8s.io/structured-merge-diff/v4/value"
-	"sigs.k8s.io/yaml"
 )
 
 // The structured-merge-diff schema every kind is served with. Object metadata follows the
@@ -224,7 +224,6 @@ func (w *World) apply(gvk schema.GroupVersionKind, sub string, k Key, cur map[st
 	if err := yaml.Unmarshal(data, &applied); err != nil {
 		return nil, kerrors.NewBadRequest("error decoding YAML: " + err.Error())
 	}
-	applied = normalizeNumbers(applied).(map[string]any)
 	if mf, ok, _ := unstructured.NestedSlice(applied, "metadata", "managedFields"); ok && len(mf) > 0 {
 		return nil, kerrors.NewBadRequest("metadata.managedFields must be nil")
 	}
